@@ -258,6 +258,7 @@ func checkC17(c *Ctx) {
 	checkBodyHasLastWord(c, "C17.R3.body-last-word", pk)
 	checkInputNormalised(c, "C17.R1.input-normalised", pk)
 	checkValueParsers(c, "C17.R4.value-parsers", pk)
+	checkNestingSiblings(c, "C17.R4.nesting-siblings", pk)
 
 	// ---- R2 regexp arity; R4 tagger agreement
 	taggers := collectTaggers(c, pk, m)
@@ -2017,5 +2018,96 @@ func checkParameterIdentity(c *Ctx, rule string, pk *packages.Package) {
 	}
 	if n == 0 {
 		c.Anchor(rule, "codescan › replacement of an operation parameter", "not found")
+	}
+}
+
+// checkNestingSiblings: the three copies of the parseArrayTypes closure (parameters, response headers,
+// schemas) walk the element type of a slice field and hand the items taggers of nesting level n to the
+// n-th `items.` prefix. Each recursive call either stays on the same items object and the same level
+// (a pointer: `[]*string` has one items level) or advances both (a slice element, the named element type).
+// Frozen from the three copies, which agree: ArrayType, Ident, SelectorExpr advance, StarExpr stays.
+var nestingAdvances = map[string]bool{"ArrayType": true, "Ident": true, "SelectorExpr": true, "StarExpr": false}
+
+func checkNestingSiblings(c *Ctx, rule string, pk *packages.Package) {
+	c.Rule(rule, "in every copy of the parseArrayTypes closure a recursive call advances the items object and the level together, and does so for slices and named element types but not for pointers (the copies agree per case)", 11)
+	info := pk.TypesInfo
+	n := 0
+	for _, fd := range load.AllFuncs(pk) {
+		if fd.Body == nil {
+			continue
+		}
+		fd := fd
+		ast.Inspect(fd.Body, func(m ast.Node) bool {
+			as, ok := m.(*ast.AssignStmt)
+			if !ok || len(as.Lhs) != 1 || len(as.Rhs) != 1 {
+				return true
+			}
+			id, ok := as.Lhs[0].(*ast.Ident)
+			fl, ok2 := as.Rhs[0].(*ast.FuncLit)
+			if !ok || !ok2 || id.Name != "parseArrayTypes" {
+				return true
+			}
+			self := info.ObjectOf(id)
+			var params []types.Object
+			for _, f := range fl.Type.Params.List {
+				for _, nm := range f.Names {
+					params = append(params, info.ObjectOf(nm))
+				}
+			}
+			ast.Inspect(fl.Body, func(k ast.Node) bool {
+				cc, ok := k.(*ast.CaseClause)
+				if !ok || len(cc.List) != 1 {
+					return true
+				}
+				caseName := ""
+				if st, ok := cc.List[0].(*ast.StarExpr); ok {
+					caseName = goan.NamedName(info.TypeOf(st.X))
+				}
+				for _, s := range cc.Body {
+					ast.Inspect(s, func(w ast.Node) bool {
+						call, ok := w.(*ast.CallExpr)
+						if !ok {
+							return true
+						}
+						f, ok := ast.Unparen(call.Fun).(*ast.Ident)
+						if !ok || info.ObjectOf(f) != self || len(call.Args) != len(params) || len(params) < 3 {
+							return true
+						}
+						n++
+						var stays []bool
+						for i := 1; i < len(params); i++ {
+							a, ok := ast.Unparen(call.Args[i]).(*ast.Ident)
+							stays = append(stays, ok && info.ObjectOf(a) == params[i])
+						}
+						together := true
+						for _, s := range stays {
+							if s != stays[0] {
+								together = false
+							}
+						}
+						key := "codescan." + load.FuncName(fd) + " › parseArrayTypes › case *ast." + caseName
+						want, known := nestingAdvances[caseName]
+						got := "(" + goan.ExprString(call.Args[1]) + ", " + goan.ExprString(call.Args[2]) + ")"
+						switch {
+						case !known:
+							c.Bad(rule, key, c.posOf(pk, call.Pos()), "a case the reviewed table does not know: decide whether *ast."+caseName+" consumes an items level")
+						case !together:
+							c.Bad(rule, key, c.posOf(pk, call.Pos()), "the recursive call hands on "+got+": the items object and the level do not advance together, so the taggers of one `items.` prefix are attached to the items of another level")
+						case want == stays[0]:
+							verb := map[bool]string{true: "advances", false: "stays on"}[want]
+							c.Bad(rule, key, c.posOf(pk, call.Pos()), "the recursive call hands on "+got+" where the sibling copies "+map[bool]string{true: "advance to the nested items and level+1", false: "stay on the same items and level"}[want]+": a `[]*T` field "+map[bool]string{true: "", false: "has one items level, not two — "}[want]+"the `items.` annotations of this level are then parsed by the wrong (or no) taggers ("+verb+" expected)")
+						default:
+							c.Ok(rule, key, c.posOf(pk, call.Pos()), got)
+						}
+						return true
+					})
+				}
+				return true
+			})
+			return true
+		})
+	}
+	if n == 0 {
+		c.Anchor(rule, "codescan › parseArrayTypes closures", "not found")
 	}
 }
